@@ -143,7 +143,7 @@ Definition cog_tidx (mm : list meta) : list (Z * Z * Z * Z) :=
 
 (** yaxis_from_shape(shape, gbox, yaxis): [gshape] is [gbox.shape] when a GeoBox
     is given; [yaxis] is the Y axis position when the caller knows it
-    (save_cog_with_dask passes the DataArray's ydim since fix e835224) *)
+    (save_cog_with_dask passes the DataArray's ydim since fix 7466ef3) *)
 Definition zz_eq (a b : Z * Z) : bool := (fst a =? fst b) && (snd a =? snd b).
 
 Definition yaxis_from_shape (shape : list Z) (gshape : option (Z * Z)) (yaxis : option Z) : res (axis * Z) :=
@@ -208,11 +208,11 @@ Definition make_metas (shape : list Z) (gshape : option (Z * Z)) (yaxis : option
   Ok (map (fun l => Meta ax (l_shape l) (l_tile l) ns) lv).
 
 (** save_cog_with_dask, blocksize not given:
-    [[data_chunks, max(1, max(data_chunks) // 2)]] (the [max(1, ..)] since fix 20f06be) *)
+    [[data_chunks, max(1, max(data_chunks) // 2)]] (the [max(1, ..)] since fix 9739bc3) *)
 Definition default_blocksize (chunks : Z * Z) : list blk :=
   [BPair (fst chunks) (snd chunks); BInt (Z.max 1 (Z.max (fst chunks) (snd chunks) / 2))].
 
-(** _compress_tiles (since fix e9dac52): the source array (unpadded, rechunked to
+(** _compress_tiles (since fix 2735edd): the source array (unpadded, rechunked to
     the tile size) has [nblocks dim tile] blocks along an axis; a tile beyond
     that is compressed from an empty block, i.e. consists of fill values only *)
 Definition nblocks (dim tile : Z) : Z := (dim + tile - 1) / tile.
